@@ -111,3 +111,35 @@ package leanhelix
 //@     | && lh.leanHelixTerm == old(lh.leanHelixTerm) && lastRoundHeight == old(lastRoundHeight) && ndelivered == old(ndelivered)
 //@   ensures [O14.4.after-an-accepted-sync-the-node-is-above-the-block] lh.state.height >= old(lh.state.height)
 //@   assert before call onNewConsensusRound [O14.2.not-first-leader-after-sync] $canBeFirstLeader == false && $prevBlock == receivedBlockWithProof.block
+
+// ======================= main loop (C12 C14 C15 C16), case-body mode =======================
+// A `select` is a nondeterministic choice of one arm, a receive yields an arbitrary value (A-CHAN): what is proved holds
+// for every schedule of arrivals; nothing is said about fairness or blocking.
+
+//@ pred Older(h1 primitives.BlockHeight, v1 primitives.View, h2 primitives.BlockHeight, v2 primitives.View) = h1 < h2 || (h1 == h2 && v1 < v2)
+
+//@ func (*MainLoop).sendUpdateMessageNonBlocking
+//@   props C14 C16
+//@   requires m.worker != nil && cap(m.worker.workerUpdateStateChannel) > 0
+//@   modifies ghost:nsent, ghost:lastCtxErrNil
+//@   ensures [O14.1.a-sync-is-dropped-only-on-shutdown] result != nil ==> !lastCtxErrNil && nsent == old(nsent)
+//@   ensures [O14.1.otherwise-it-is-handed-to-the-worker] result == nil ==> nsent == old(nsent) + 1
+
+//@ func (*MainLoop).sendElectionMessageNonBlocking
+//@   props C15 C16 C19
+//@   requires m.worker != nil && cap(m.worker.electionChannel) > 0
+//@   modifies ghost:nsent
+//@   ensures [at-most-one-send] nsent <= old(nsent) + 1
+
+//@ func (*MainLoop).run
+//@   props C12 C14 C15 C16
+//@   safety iface
+//@   requires m.worker != nil && m.state != nil && m.state.Contexts != nil && m.worker.state == m.state && m.electionScheduler != nil && ctx != nil && cap(m.worker.workerUpdateStateChannel) > 0 && cap(m.worker.electionChannel) > 0
+//@   modifies M:S_state_HeightView:Int, state.ViewContexts.newestHvCanceledOlder, state.ViewContexts.shutdown, ghost:cancelled, ghost:nsent, ghost:lastCtxErrNil
+//@   ensures [O16.3.contexts-shut-down-when-the-loop-ends] m.state.Contexts.shutdown && cancelled[m.state.Contexts.parentCtxWithCancel.cancel]
+//@   loop for
+//@     invariant [frame] m.worker == old(m.worker) && m.state == old(m.state) && m.state.Contexts == old(m.state.Contexts) && m.worker.state == m.state && m.state.Contexts.parentCtxWithCancel == old(m.state.Contexts.parentCtxWithCancel) && m.state.Contexts.hvToContext == old(m.state.Contexts.hvToContext) && m.worker.workerUpdateStateChannel == old(m.worker.workerUpdateStateChannel) && m.worker.electionChannel == old(m.worker.electionChannel)
+//@     invariant [O16.3.not-shut-down-while-running] m.state.Contexts.shutdown == old(m.state.Contexts.shutdown)
+//@   assert before call sendUpdateMessageNonBlocking [O14.1.only-newer-syncs-are-forwarded] maxBlockHeightBySync == nil || deref(maxBlockHeightBySync) < receivedBlockHeight
+//@   assert before call sendUpdateMessageNonBlocking [O14.1.older-contexts-cancelled-before-forwarding] m.state.Contexts.newestHvCanceledOlder != nil && !Older(m.state.Contexts.newestHvCanceledOlder.height, m.state.Contexts.newestHvCanceledOlder.view, (receivedBlockHeight + 1) % 2^64, 0)
+//@   assert before call sendElectionMessageNonBlocking [O15.5.view-context-cancelled-before-forwarding] m.state.Contexts.newestHvCanceledOlder != nil && !Older(m.state.Contexts.newestHvCanceledOlder.height, m.state.Contexts.newestHvCanceledOlder.view, trigger.Hv.height, (trigger.Hv.view + 1) % 2^64)
